@@ -76,8 +76,8 @@ def measure(r):
         return k.decode() if isinstance(k, bytes) else str(getattr(k, "__class__", type(k)).__name__ if _is_node_obj(k) else k)
 
     def _is_node_obj(v):
-        m = getattr(type(v), "__module__", "") or ""
-        return m.startswith("diameter.node") and not isinstance(v, type) and hasattr(v, "__dict__") \
+        m = any((getattr(k, "__module__", "") or "").startswith("diameter.node") for k in type(v).__mro__)
+        return m and not isinstance(v, type) and hasattr(v, "__dict__") \
             and type(v).__name__ not in ("StoppableThread", "PeerLogAdapter", "MessageDumpLogAdapter", "SequenceGenerator",
                                          "SessionGenerator")
     walk(node, "node", 0)
@@ -170,6 +170,46 @@ def h_outbound(n):
             for x in ms:
                 if x["req"] and x["cmd"].startswith("App"):
                     h.do(dict(ev="recv", cid=c, frames=[NS.build_message(dict(kind="ans", hbh=x["hbh"], e2e=x["e2e"]))]))
+    return h
+
+
+def h_retransmissions(n):
+    """each request is answered by the application, then repeated with the T flag (rejected 5012 by the node)"""
+    h = Hist(cfg2())
+    cid = h.established()
+    g = nodegen.Gen(random.Random(0), h.cfg, {})
+    from diameter.message import Message
+    for _ in range(n):
+        o, spec = h.recv(cid, dict(kind="req", host="cli0.example.net"))
+        wire = h.events[-1]["frames"][0]
+        for (app, _hh, _ee) in o["delivered"]:
+            h.do(dict(ev="app_answer", app=app, msg=g.make_answer(wire)))
+        m = Message.from_bytes(wire)
+        m.header.is_retransmit = True
+        m.header.hop_by_hop_identifier = h.ids()[0]
+        h.do(dict(ev="recv", cid=cid, frames=[m.as_bytes()]))
+    return h
+
+
+def h_outbound_late(n):
+    """outbound requests whose answer arrives only after the caller's timeout"""
+    from diameter.message.commands import CreditControlRequest
+    h = Hist(cfg2())
+    cid = h.established()
+    for i in range(n):
+        m = CreditControlRequest()
+        m.session_id = "late;%d" % i
+        m.origin_host = b"srv.example.net"
+        m.origin_realm = b"example.net"
+        m.destination_realm = b"example.net"
+        m.service_context_id = "ctx"
+        m.cc_request_type = 1
+        m.cc_request_number = 0
+        o = h.do(dict(ev="app_request", app=0, msg=m, pick=0, timeout=2))
+        sent = [(c, x) for c, ms in o["sends"].items() for x in ms if x["req"] and x["cmd"].startswith("App")]
+        h.tick(3)
+        for c, x in sent:
+            h.do(dict(ev="recv", cid=c, frames=[NS.build_message(dict(kind="ans", hbh=x["hbh"], e2e=x["e2e"]))]))
     return h
 
 
@@ -350,6 +390,7 @@ def h_stopping(n):
 
 
 KINDS = [("inbound request/answer", h_inbound, True), ("outbound request/answer", h_outbound, True),
+         ("rejected retransmissions", h_retransmissions, True), ("outbound request answered after the timeout", h_outbound_late, True),
          ("DWR from the peer", h_dwr_in, True), ("DWR from the node", h_dwr_out, True),
          ("rejected requests", h_rejected, True), ("connection closed by the peer", h_conn_peer_closes, True),
          ("connection ended by DPR", h_conn_dpr, True), ("connection closed by the node (watchdog)", h_conn_watchdog, True),
